@@ -473,11 +473,22 @@ def qeIdentityChecks (C : Crypto) (w : World) (o : Opts) (T : TimeSet) (c : Coll
 def cpuSvnGe (comps : Bytes) (lvl : List Nat) : Bool :=
   comps.length == lvl.length && (List.zipWith (fun c l => decide (l ≤ c.toNat)) comps lvl).all id
 
-/-- `isTdxTcbSvnHigherOrEqual`; `tee[1]` is a Go index (the structural check guarantees 16 bytes) -/
-def tdxSvnGe (tee : Bytes) (lvl : List Nat) : Outcome Bool :=
+/-- `isTdxTcbSvnHigherOrEqual` as pinned (finding F16): `tee[1]` is a Go index read after a same-length check only — a TEE TCB
+    SVN of fewer than two bytes against a level listing equally few TDX components crashes.  `verify.TdxQuote` never gets
+    there (the structural check demands 16 bytes); `verify.SupportedTcbLevelsFromCollateral` does. -/
+def tdxSvnGeUnfixed (tee : Bytes) (lvl : List Nat) : Outcome Bool :=
   if tee.length != lvl.length then .ok false
   else match tee[1]? with
     | none => .panic
+    | some t1 =>
+      let start := if t1 > 0 then 2 else 0
+      .ok ((List.zipWith (fun c l => decide (l ≤ c.toNat)) (tee.drop start) (lvl.drop start)).all id)
+
+/-- `isTdxTcbSvnHigherOrEqual` (repaired, fix F16): fewer than two bytes match no level -/
+def tdxSvnGe (tee : Bytes) (lvl : List Nat) : Outcome Bool :=
+  if tee.length != lvl.length then .ok false
+  else match tee[1]? with
+    | none => .ok false
     | some t1 =>
       let start := if t1 > 0 then 2 else 0
       .ok ((List.zipWith (fun c l => decide (l ≤ c.toNat)) (tee.drop start) (lvl.drop start)).all id)
